@@ -41,7 +41,7 @@ func runC16(c *core.Ctx) {
 			fns = append(fns, fn)
 		}
 	}
-	c.Doc("C16.pairing", "mutex operations balanced on every path (serviceImpl, clientService)", 6)
+	c.Doc("C16.pairing", "mutex operations balanced on every path (serviceImpl, clientService)", 4)
 	lockPairing(c, lc, "C16.pairing", fns)
 
 	c.Doc("C16.guarded-by", "object/mailbox/handler tables only touched under their mutex, writes exclusively", 20)
